@@ -1248,7 +1248,8 @@ class SupportIndex(object):
 
         # libsmi: TODO: use the SYNTAX value of the correspondent
         #               OBJECT-TYPE invocation
-        p[0] = isinstance(p[1], tuple) and p[1][1][0] or p[1]
+        # (the first sub-identifier may be the number 0, which is not "nothing")
+        p[0] = p[1][1][0] if isinstance(p[1], tuple) else p[1]
 
     # for Index rule
     @staticmethod
